@@ -355,28 +355,31 @@ def _tie_a_one(script):
     return res, st, out[-1500:]
 
 
+KERN_THEOREMS = {'kernel_dense_eq', 'kernel_sparse_eq', 'kernel_dispatch_eq'}
+
+TRANSLATORS = [   # (script, theorems it generates (None = everything else), modules its output imports)
+    ('py2lean.py', None, ['Model', 'Proofs.Rev', 'Proofs.Invol']),
+    ('mv2lean.py', MV_THEOREMS, ['Proofs.Conf2', 'Proofs.CgaObj', 'Proofs.Classify']),
+    ('loops2lean.py', LOOP_THEOREMS, ['Model']),
+    ('closed2lean.py', CLOSED_THEOREMS, ['Proofs.Hitzer', 'Proofs.Hitzer4', 'Proofs.Hitzer5']),
+    ('methods2lean.py', METH_THEOREMS, ['Proofs.Invol', 'Proofs.Graded', 'Proofs.Blade']),
+    ('kernels2lean.py', KERN_THEOREMS, ['Model']),
+]
+
+
 def tie_a(names=None):
-    """Tie A: translate code of the *current* source to Lean and check the generated equivalence theorems:
-    `translate/py2lean.py` for the loop-free integer code, `translate/mv2lean.py` for the straight-line multivector
-    expressions of the conformal layers, `translate/loops2lean.py` for the blade-sign loops. Returns ({theorem: axioms | None}, translator status, log tail)."""
+    """Tie A: translate code of the *current* source to Lean and check the generated equivalence theorems (one translator per
+    slice of the code, see DESIGN §2). Returns ({theorem: axioms | None}, translator status, log tail)."""
     names = set(names or [])
+    known = set().union(*[t for _, t, _ in TRANSLATORS if t])
     scripts = []
-    if not names or names - MV_THEOREMS - LOOP_THEOREMS - CLOSED_THEOREMS - METH_THEOREMS:
-        scripts.append(VERIF / 'translate' / 'py2lean.py')
-    if not names or names & MV_THEOREMS:
-        scripts.append(VERIF / 'translate' / 'mv2lean.py')
-    if not names or names & LOOP_THEOREMS:
-        scripts.append(VERIF / 'translate' / 'loops2lean.py')
-    if not names or names & CLOSED_THEOREMS:
-        scripts.append(VERIF / 'translate' / 'closed2lean.py')
-    if not names or names & METH_THEOREMS:
-        scripts.append(VERIF / 'translate' / 'methods2lean.py')
+    for script, thms, mods in TRANSLATORS:
+        if not names or (thms is None and names - known) or (thms is not None and names & thms):
+            scripts.append((VERIF / 'translate' / script, mods))
     res, st, log = {}, dict(status={}, theorems={}), ''
-    for sc in scripts:
+    for sc, mods in scripts:
         # what the generated file imports must be compiled first (no-op when it already is)
-        lake_build({'mv2lean': ['Proofs.Conf2', 'Proofs.CgaObj', 'Proofs.Classify'], 'closed2lean': ['Proofs.Hitzer', 'Proofs.Hitzer4', 'Proofs.Hitzer5'],
-                    'methods2lean': ['Proofs.Invol', 'Proofs.Graded', 'Proofs.Blade']}.get(
-            sc.stem, ['Model', 'Proofs.Rev', 'Proofs.Invol']))
+        lake_build(mods)
         r, s_, l = _tie_a_one(sc)
         res.update(r)
         if 'error' in s_:
